@@ -209,7 +209,7 @@ def user_dtype(t, names):
         return user_dtype(a.args[0], names)
     if a.kind == 'call':
         fn, args, kw = a.args
-        if fn in ('array', 'copy', 'reshape', 'T', 'transpose', 'flip', 'repeat', 'tile') and args:
+        if fn in ('array', 'copy', 'reshape', 'T', 'transpose', 'flip', 'repeat', 'tile', 'tile_rows', 'tile_cols') and args:
             return user_dtype(args[0], names) and not any(k == 'dtype' for k, _ in kw)
         if fn == 'full' and not any(k == 'dtype' for k, _ in kw):
             fv = dict(kw).get('fill_value')
